@@ -325,7 +325,7 @@ static void op_add(Ctx& x) {
 }
 static void op_addx(Ctx& x) {
   const char* op = "add(A,x,B)";
-  static const Dy xs[3] = {Dy(1), Dy(-3), Dy(1, 2)};
+  static const Dy xs[4] = {Dy(1), Dy(-3), Dy(1, 2), Dy(0)};   // x = 0: nothing is added, but the operands must still be conformable
   Dy xv = xs[x.extra]; double xd = xv.d(); x.moreFn = [&]() -> std::string { return "x=" + dstr(xv); };
   Opd A = x.opd(0, x.clsA, x.rA, x.cA), B = x.opd(1, x.clsB, x.rB, x.cB);
   x.site(op);
@@ -728,7 +728,7 @@ int main(int argc, char** argv) {
     {"mult(A,iA,D,iD,B,iB,O,iO)",         op_multCD,   true,  true,  3, 3, 3, 3, 4, 2, 6,           1},
     {"mult(A,D,U,L,B,O)",                 op_multT,    true,  true,  3, 3, 3, 1, 4, 2, 9,           1},
     {"add(A,B)",                          op_add,      true,  true,  3, 3, 1, 1, 1, 4, 1,           1},
-    {"add(A,x,B)",                        op_addx,     true,  true,  3, 3, 1, 1, 1, 4, 3,           3},
+    {"add(A,x,B)",                        op_addx,     true,  true,  3, 3, 1, 1, 1, 4, 4,           4},
     {"transpose(A,O)",                    op_transpose, true, false, 3, 1, 3, 1, 4, 4, 1,           1},
     {"pow(A,p,O)",                        op_pow,      true,  false, 3, 1, 1, 1, 4, 4, 7,           7},
     {"Taylor(A,p,vO)",                    op_taylor,   true,  false, 3, 1, 1, 1, 3, 4, 5,           5},
